@@ -153,7 +153,7 @@ def run_mode(ctx, mode):
         "samples": summ["samples"] or ["(none)"],
         "exhaustive": False,
         "trusted_base": [
-            "Coq 8.16.1 kernel (coqc; coqchk in the thorough tier); vm_compute only in the refutation witnesses (Refuted.v) and the non-vacuity examples (Examples.v)",
+            "Coq 8.16.1 kernel (coqc; coqchk in the thorough tier); vm_compute only in the refutation witnesses (Refuted.v), the non-vacuity examples (Examples.v) and the in-Coq cross-check of the sampled histories (Observe.v)",
             ("axioms: none (Print Assumptions: Closed under the global context)" if not status["axioms"]
              else "axioms: " + ", ".join(status["axioms"])),
             "extraction (ExtrOcamlBasic only) + OCaml 4.13.1 + props/C01/driver/c01_driver.ml (zarith for decimal I/O; "
